@@ -19,7 +19,16 @@ THEOREMS = ['segIntegral_closed', 'segIntegral_zero', 'firstOrderEntry_exact',
             'ff_fid_eq_frob_sq', 'ff_fid_le', 'ff_fid_re_le', 'ff_fid_offdiag_le',
             'herm_sandwich_apply', 'cm_neg_omega', 'cm_neg_omega_map', 'ff_neg_omega',
             'ff_neg_omega_diag', 'ff_gen_neg_omega', 'firstOrderEntry_zero_x', 'ff_fid_le_sharp']
-LEAN_MODULES = ['FFVerif.Props.C01', 'FFVerif.Props.C01Seg', 'FFVerif.Props.C01Bound', 'FFVerif.Props.C01Unique']
+LEAN_MODULES = ['FFVerif.Props.C01', 'FFVerif.Props.C01Seg', 'FFVerif.Props.C01Bound', 'FFVerif.Props.C01Unique',
+                'FFVerif.Props.C12Frame']
+# module C12Frame (C01 part): Parseval and the bound (constant 1) for complete Hilbert-Schmidt-orthonormal bases with
+# NON-Hermitian elements; F(-w) = conj F(w) needs Hermitian elements (ladder-basis counterexample) or adjoint-closedness
+THEOREMS = THEOREMS + [
+    'FFVerif.C01.ff_fid_eq_frob_sq_general', 'FFVerif.C01.ff_fid_le_general',
+    'FFVerif.C01.ff_fid_offdiag_le_general', 'FFVerif.C01.ladderBasis_ortho',
+    'FFVerif.C01.ladderBasis_complete', 'FFVerif.C01.ladderBasis_not_herm',
+    'FFVerif.C01.cm_neg_omega_needs_hermitian_basis', 'FFVerif.C01.cm_neg_omega_adjoint',
+    'FFVerif.C01.ff_neg_omega_adjoint_closed']
 # module C01Unique: control matrix / filter functions / infidelity do not depend on WHICH eigh output is used
 # (phases, bases of degenerate eigenspaces, order of eigenvalues), for every guard kind and threshold
 THEOREMS = THEOREMS + [
